@@ -2,7 +2,10 @@ import ScrapliModel.Channel.Basic
 /-
   `BaseChannel._strip_ansi`: re.sub(ANSI_ESCAPE_PATTERN, b"", buf) with
 
-      [\x1B\x9B\x9D](\s)?( ([78ME]) | ((\]\d).*?[\x07]) | (\[.*?[@-~]) | (\[.*?[0-9;]m) )
+      \x1B(\s)?( ([78ME]) | ((\]\d).*?[\x07]) | (\[.*?[@-~]) | (\[.*?[0-9;]m) )
+
+  (fix 3f4e39f: ESC is the only introducer; before it 0x9B / 0x9D, continuation bytes of UTF-8 text,
+  were introducers too, but only in reads that also contained an ESC)
 
   written as a deterministic scanner.  Why this is the regex: alternatives are ordered and nothing
   follows the group, so the first alternative that can match wins; `.` does not match newline;
@@ -15,7 +18,7 @@ import ScrapliModel.Channel.Basic
 namespace Scrapli.Chan
 open Scrapli
 
-def isAnsiStart (c : UInt8) : Bool := c == 0x1B || c == 0x9B || c == 0x9D
+def isAnsiStart (c : UInt8) : Bool := c == 0x1B
 def isFinal (c : UInt8) : Bool := 0x40 ≤ c && c ≤ 0x7E      -- [@-~]
 def isDigit (c : UInt8) : Bool := 48 ≤ c && c ≤ 57
 def isCursor (c : UInt8) : Bool := c == 55 || c == 56 || c == 77 || c == 69   -- [78ME]
